@@ -14,12 +14,12 @@ import (
 type Trace struct {
 	Version  int             `json:"version"`
 	Property string          `json:"property"`
-	Seed     uint64          `json:"seed"`     // run seed (informational)
-	VSeed    uint64          `json:"vseed"`    // VERIF_SEED (informational)
-	Run      uint64          `json:"run"`      // run index (informational)
-	Tier     string          `json:"tier"`     // informational
-	Profile  json.RawMessage `json:"profile"`  // informational
-	World    string          `json:"world"`    // "chain" or "intertx"
+	Seed     uint64          `json:"seed"`    // run seed (informational)
+	VSeed    uint64          `json:"vseed"`   // VERIF_SEED (informational)
+	Run      uint64          `json:"run"`     // run index (informational)
+	Tier     string          `json:"tier"`    // informational
+	Profile  json.RawMessage `json:"profile"` // informational
+	World    string          `json:"world"`   // "chain" or "intertx"
 	Hasher   *HasherCfg      `json:"hasher,omitempty"`
 	Genesis  *GenesisDoc     `json:"genesis"`
 	Actors   []string        `json:"actors"`
